@@ -7,7 +7,7 @@ from . import ftlib as F
 
 ID = "C14"
 CHECKER = "chk_ft"
-THEOREMS = ['C14_weight_at_0', 'C14_weight_zero_constant', 'C14_weight_formula', 'C14_weight_matches_fortran', 'C14_weight_bounded', 'C14_lorch_is_premultiplication', 'C14_constant_is_pi_over_largest_abscissa', 'C14_lorch_window_uses_largest_abscissa']
+THEOREMS = ['C14_weight_at_0', 'C14_weight_zero_constant', 'C14_weight_formula', 'C14_weight_matches_fortran', 'C14_weight_bounded', 'C14_lorch_is_premultiplication', 'C14_constant_is_pi_over_largest_abscissa', 'C14_lorch_window_uses_largest_abscissa', 'C14_lorch_weight', 'C14_lorch_factor', 'C14_lorch_constant_undefined', 'C14_lorch_factor_zero_undefined', 'C14_fourier_transform']
 RULE = ("fourier_transform(lorch=True) on grids with 0 first / in the middle (not for increasing grids) / absent, no window or a window whose "
         "upper limit is a grid point, run under heap histories (NaN / inf / 3.0 filled blocks of the relevant sizes freed just before the call); "
         "uniform grids additionally against the compiled Fortran window; non-trivial = some output non-zero; distinct by input hash")
